@@ -133,6 +133,7 @@ Definition default_ok (gids : list N) (rules : list pexpr) : bool :=
 Section Body.
   Variable input : PositiveMap.t N.
   Variable ilen : N.
+  Variable cmatch : N -> option N.
   Variable rules : list pexpr.
   Variable classes : list (list (N * N * N)).
   Variable acts : list (list aeff).
@@ -166,7 +167,7 @@ Section Body.
       if skip s then P e1 s
       else
         let '(ok, s1) := P e1 s in
-        if ok then (true, run_action input ilen acts fn s1) else (false, s1)
+        if ok then (true, run_action input ilen cmatch acts fn s1) else (false, s1)
     | PSeq _ es => seq_go (cur s) es s
     | PChoice _ es => choice_go es s
     | PLabel _ lab _ e1 =>
@@ -200,9 +201,9 @@ Section Body.
       let '(ok, s1) := P e1 s in
       if ok then star_loop e1 fuel s1 else (false, s1)
     | PRef _ r => P (nth (N.to_nat r) rules (PAny 0)) s
-    | PAndCode _ fn => run_pred input ilen preds fn s
-    | PNotCode _ fn => let '(b, s1) := run_pred input ilen preds fn s in (negb b, s1)
-    | PCode _ fn ns => if (if ns then false else skip s) then (true, s) else (true, run_action input ilen acts fn s)
+    | PAndCode _ fn => run_pred input ilen cmatch preds fn s
+    | PNotCode _ fn => let '(b, s1) := run_pred input ilen cmatch preds fn s in (negb b, s1)
+    | PCode _ fn ns => if (if ns then false else skip s) then (true, s) else (true, run_action input ilen cmatch acts fn s)
     | PLit _ v ic =>
       let start := cur s in
       let '(ok, s1) := match_lit input ilen v ic s in
@@ -231,13 +232,14 @@ Section Body.
     end.
 End Body.
 
-Lemma pe_S : forall input ilen rules classes acts preds fuel e s0,
-  pe input ilen rules classes acts preds (S fuel) e s0 =
-  pe_body input ilen rules classes acts preds (pe input ilen rules classes acts preds fuel) fuel e s0.
+Lemma pe_S : forall input ilen cmatch rules classes acts preds fuel e s0,
+  pe input ilen cmatch rules classes acts preds (S fuel) e s0 =
+  pe_body input ilen cmatch rules classes acts preds (pe input ilen cmatch rules classes acts preds fuel) fuel e s0.
 Proof. reflexivity. Qed.
 
 (* ============================================================================== *)
 Section Soundness.
+  Variable cmatch : N -> option N.    (* arbitrary registered custom dice parsers *)
   Variable rules : list pexpr.
   Variable classes : list (list (N * N * N)).
   Variable acts : list (list aeff).
@@ -254,7 +256,7 @@ Section Soundness.
   Local Notation IDOK := (id_ok preds f bv mlit gids).
   Local Notation SAFE := (safe acts preds f bv X mlit gids U).
   Local Notation FNBAD := (fn_bad acts f bv X).
-  Local Notation PE := (pe input ilen rules classes acts preds).
+  Local Notation PE := (pe input ilen cmatch rules classes acts preds).
   Local Notation READ := (read input ilen).
   Local Notation DEC := (decode input ilen).
   Local Notation nrules := (N.of_nat (length rules)).
@@ -425,16 +427,32 @@ Section Soundness.
         rewrite existsb_app, ?Ht, ?He, Hr; reflexivity.
   Qed.
 
-  Lemma Inv_run_action : forall fn s,
-    Inv s -> FNBAD fn = false -> Inv (run_action input ilen acts fn s).
+  (* ConsumeCustomDice only moves the current point, through `read` *)
+  Lemma Inv_read_until : forall k target s, Inv s -> Inv (read_until input ilen k target s).
   Proof.
-    intros fn s H Hb. unfold run_action. apply Inv_put_data; auto.
-    apply run_effs_ok; auto using DInv_get_data.
+    induction k as [|k IH]; intros target s H; cbn [read_until]; auto.
+    destruct (off (cur s) <? target); auto using Inv_read.
+  Qed.
+
+  Lemma Inv_custom_consume : forall s, Inv s -> Inv (custom_consume input ilen cmatch s).
+  Proof.
+    intros s H. unfold custom_consume. destruct (cmatch (off (cur s))) as [len|]; auto.
+    destruct (0 <? len); auto using Inv_read_until.
+  Qed.
+
+  Lemma Inv_run_action : forall fn s,
+    Inv s -> FNBAD fn = false -> Inv (run_action input ilen cmatch acts fn s).
+  Proof.
+    intros fn s H Hb. unfold run_action. cbv zeta.
+    assert (Hp : Inv (put_data s (run_effs input ilen 4096 (cap_id s) (cap_on s) (off (cur s))
+                        (nth (N.to_nat fn) acts [AUnknown]) (get_data s)))).
+    { apply Inv_put_data; auto. apply run_effs_ok; auto using DInv_get_data. }
+    destruct (has_consume (nth (N.to_nat fn) acts [AUnknown])); auto using Inv_custom_consume.
   Qed.
 
   (* ---------- (b) predicates ------------------------------------------------------ *)
   Lemma Inv_run_pred : forall fn s b s',
-    Inv s -> run_pred input ilen preds fn s = (b, s') -> Inv s'.
+    Inv s -> run_pred input ilen cmatch preds fn s = (b, s') -> Inv s'.
   Proof.
     intros fn s b s' H. unfold run_pred.
     destruct (nth (N.to_nat fn) preds PUnknownP) as [f' v|b' err| |]; intros E; inversion E; subst; auto.
@@ -442,7 +460,7 @@ Section Soundness.
   Qed.
 
   Lemma guard_and_fails : forall i fn s b s',
-    GUARD (PAndCode i fn) = true -> Inv s -> run_pred input ilen preds fn s = (b, s') -> b = false.
+    GUARD (PAndCode i fn) = true -> Inv s -> run_pred input ilen cmatch preds fn s = (b, s') -> b = false.
   Proof.
     intros i fn s b s' Hg [(H1 & _) _ _ _]. unfold run_pred. cbn [is_guard] in Hg.
     destruct (nth (N.to_nat fn) preds PUnknownP) as [f' v|b' err| |]; try discriminate.
@@ -453,7 +471,7 @@ Section Soundness.
   Qed.
 
   Lemma guard_not_fails : forall i fn s b s',
-    GUARD (PNotCode i fn) = true -> Inv s -> run_pred input ilen preds fn s = (b, s') -> negb b = false.
+    GUARD (PNotCode i fn) = true -> Inv s -> run_pred input ilen cmatch preds fn s = (b, s') -> negb b = false.
   Proof.
     intros i fn s b s' Hg [(H1 & _) _ _ _]. unfold run_pred. cbn [is_guard] in Hg.
     destruct (nth (N.to_nat fn) preds PUnknownP) as [f' v|b' err| |]; try discriminate.
@@ -660,7 +678,7 @@ Section Soundness.
 
     Lemma step_ok : forall fuel e s ok s1,
       SAFE e = true -> rok e = true -> Inv s ->
-      step input ilen rules classes acts preds P fuel e s = (ok, s1) ->
+      step input ilen cmatch rules classes acts preds P fuel e s = (ok, s1) ->
       Inv s1 /\ (MF e = true -> ok = false).
     Proof.
       intros fuel e s ok s1 Hsafe Hrok Hinv Hstep.
@@ -736,7 +754,7 @@ Section Soundness.
         split; [eapply Inv_run_pred; eauto|]. rewrite orb_false_r. intros Hg.
         eapply guard_and_fails; eauto.
       - (* PNotCode *)
-        destruct (run_pred input ilen preds fn s) as [b s'] eqn:E1.
+        destruct (run_pred input ilen cmatch preds fn s) as [b s'] eqn:E1.
         injection Hstep as E2 E3; rewrite <- E2, <- E3.
         split; [eapply Inv_run_pred; eauto|]. rewrite orb_false_r. intros Hg.
         eapply guard_not_fails; eauto.
@@ -784,7 +802,7 @@ Section Soundness.
         destruct HM as [HM1 HM2]. split.
         * apply Inv_restore; eauto.
         * intros Hm. rewrite <- Hg in Hm. eapply HM1; eauto.
-      + destruct (step input ilen rules classes acts preds (PE fuel) fuel e (tick s)) as [ok1 s1] eqn:Es.
+      + destruct (step input ilen cmatch rules classes acts preds (PE fuel) fuel e (tick s)) as [ok1 s1] eqn:Es.
         injection Hpe as E1 E2. rewrite <- E1, <- E2.
         destruct (step_ok (PE fuel) IH fuel e (tick s) ok1 s1 Hsafe Hrok Ht Es) as [A B].
         split; auto. apply Inv_memo_put; [exact A|exact Hlt| |apply A].
@@ -821,10 +839,10 @@ Section Soundness.
   Qed.
 
   Lemma parse_inv : forall fl fuel, getf fl f = bv ->
-    let r := parse rules classes acts preds fuel fl bytes in
+    let r := parse_custom cmatch rules classes acts preds fuel fl bytes in
     getf (r_cfg r) f = bv /\ (forall op, In op (r_emitted r) -> mem_N op X = false).
   Proof.
-    intros fl fuel Hfl. unfold parse. cbv zeta.
+    intros fl fuel Hfl. unfold parse_custom. cbv zeta.
     destruct start_ok as [A B].
     destruct (PE fuel (nth 0 rules (PAny 0)) (READ (init_pst fl))) as [ok s1] eqn:E.
     destruct (pe_ok _ _ _ _ _ A B (Inv_init fl Hfl) E) as [[(H1 & H2 & H3) _ _ _] _].
@@ -833,18 +851,39 @@ Section Soundness.
 
   Theorem gating_sound_sec : forall fl, getf fl f = bv ->
     forall fuel op, mem_N op X = true ->
-    ~ In op (r_emitted (parse rules classes acts preds fuel fl bytes)).
+    ~ In op (r_emitted (parse_custom cmatch rules classes acts preds fuel fl bytes)).
   Proof.
     intros fl Hfl fuel op Hop Hin.
     destruct (parse_inv fl fuel Hfl) as [_ H]. apply H in Hin. congruence.
   Qed.
 
   Theorem gating_flag_stays_sec : forall fl, getf fl f = bv ->
-    forall fuel, getf (r_cfg (parse rules classes acts preds fuel fl bytes)) f = bv.
+    forall fuel, getf (r_cfg (parse_custom cmatch rules classes acts preds fuel fl bytes)) f = bv.
   Proof. intros fl Hfl fuel. apply (parse_inv fl fuel Hfl). Qed.
 End Soundness.
 
 (* ---------- the user-facing theorems ---------------------------------------------- *)
+(* whatever custom dice parsers are registered *)
+Theorem gating_sound_custom : forall cmatch rules classes acts preds f bv X mlit gids U bytes fl,
+  gated acts preds f bv X mlit gids rules U = true ->
+  (mlit = [] \/ occurs mlit bytes = false) ->
+  Forall (fun c => c < 128) mlit ->
+  default_ok gids rules = true ->
+  getf fl f = bv ->
+  forall fuel op, mem_N op X = true ->
+  ~ In op (r_emitted (parse_custom cmatch rules classes acts preds fuel fl bytes)).
+Proof. intros. eapply gating_sound_sec; eauto. Qed.
+
+Theorem gating_flag_stays_custom : forall cmatch rules classes acts preds f bv X mlit gids U bytes fl,
+  gated acts preds f bv X mlit gids rules U = true ->
+  (mlit = [] \/ occurs mlit bytes = false) ->
+  Forall (fun c => c < 128) mlit ->
+  default_ok gids rules = true ->
+  getf fl f = bv ->
+  forall fuel, getf (r_cfg (parse_custom cmatch rules classes acts preds fuel fl bytes)) f = bv.
+Proof. intros. eapply gating_flag_stays_sec; eauto. Qed.
+
+(* no custom dice registered: parse = parse_custom (fun _ => None) *)
 Theorem gating_sound : forall rules classes acts preds f bv X mlit gids U bytes fl,
   gated acts preds f bv X mlit gids rules U = true ->
   (mlit = [] \/ occurs mlit bytes = false) ->
@@ -853,7 +892,7 @@ Theorem gating_sound : forall rules classes acts preds f bv X mlit gids U bytes 
   getf fl f = bv ->
   forall fuel op, mem_N op X = true ->
   ~ In op (r_emitted (parse rules classes acts preds fuel fl bytes)).
-Proof. intros. eapply gating_sound_sec; eauto. Qed.
+Proof. intros. unfold parse. eapply gating_sound_custom; eauto. Qed.
 
 Theorem gating_flag_stays : forall rules classes acts preds f bv X mlit gids U bytes fl,
   gated acts preds f bv X mlit gids rules U = true ->
@@ -862,7 +901,88 @@ Theorem gating_flag_stays : forall rules classes acts preds f bv X mlit gids U b
   default_ok gids rules = true ->
   getf fl f = bv ->
   forall fuel, getf (r_cfg (parse rules classes acts preds fuel fl bytes)) f = bv.
-Proof. intros. eapply gating_flag_stays_sec; eauto. Qed.
+Proof. intros. unfold parse. eapply gating_flag_stays_custom; eauto. Qed.
+
+(* ---------- C17: custom dice parsers that never match are transparent --------------- *)
+Section Transparent.
+  Variable input : PositiveMap.t N.
+  Variable ilen : N.
+  Variable cmatch : N -> option N.
+  Variable rules : list pexpr.
+  Variable classes : list (list (N * N * N)).
+  Variable acts : list (list aeff).
+  Variable preds : list psum.
+  Hypothesis Hnone : forall o, cmatch o = None.
+
+  Lemma run_pred_none : forall fn s,
+    run_pred input ilen cmatch preds fn s = run_pred input ilen (fun _ => None) preds fn s.
+  Proof.
+    intros fn s. unfold run_pred. destruct (nth (N.to_nat fn) preds PUnknownP); auto.
+    now rewrite Hnone.
+  Qed.
+
+  Lemma run_action_none : forall fn s,
+    run_action input ilen cmatch acts fn s = run_action input ilen (fun _ => None) acts fn s.
+  Proof.
+    intros fn s. unfold run_action. cbv zeta.
+    destruct (has_consume (nth (N.to_nat fn) acts [AUnknown])); auto.
+    unfold custom_consume. now rewrite Hnone.
+  Qed.
+
+  Section Ext.
+    Variables P Q : pexpr -> pst -> bool * pst.
+    Hypothesis HPQ : forall e s, P e s = Q e s.
+
+    Lemma seq_go_ext : forall start l st, seq_go P start l st = seq_go Q start l st.
+    Proof.
+      intros start. induction l as [|x r IH]; intros st; cbn [seq_go]; auto.
+      rewrite HPQ. destruct (Q x st) as [[|] st1]; auto.
+    Qed.
+    Lemma choice_go_ext : forall l st, choice_go P l st = choice_go Q l st.
+    Proof.
+      induction l as [|x r IH]; intros st; cbn [choice_go]; auto.
+      rewrite HPQ. destruct (Q x st) as [[|] st1]; auto.
+    Qed.
+    Lemma star_loop_ext : forall e1 k st, star_loop P e1 k st = star_loop Q e1 k st.
+    Proof.
+      intros e1. induction k as [|k IH]; intros st; cbn [star_loop]; auto.
+      rewrite HPQ. destruct (Q e1 st) as [[|] st1]; auto.
+    Qed.
+
+    Lemma step_none : forall fuel e s,
+      step input ilen cmatch rules classes acts preds P fuel e s =
+      step input ilen (fun _ => None) rules classes acts preds Q fuel e s.
+    Proof.
+      intros fuel e s. destruct e; cbn [step]; cbv zeta;
+        rewrite ?HPQ, ?run_pred_none, ?run_action_none;
+        auto using seq_go_ext, choice_go_ext, star_loop_ext.
+      - (* PAction *) destruct (skip s); auto. destruct (Q e s) as [[|] s1]; auto.
+        now rewrite run_action_none.
+      - (* PPlus *) destruct (Q e s) as [[|] s1]; auto using star_loop_ext.
+    Qed.
+
+    Lemma pe_body_none : forall fuel e s,
+      pe_body input ilen cmatch rules classes acts preds P fuel e s =
+      pe_body input ilen (fun _ => None) rules classes acts preds Q fuel e s.
+    Proof. intros fuel e s. unfold pe_body. now rewrite step_none. Qed.
+  End Ext.
+
+  Theorem never_matching_custom_transparent : forall fuel e s,
+    pe input ilen cmatch rules classes acts preds fuel e s =
+    pe input ilen (fun _ => None) rules classes acts preds fuel e s.
+  Proof.
+    induction fuel as [|fuel IH]; intros e s; [reflexivity|].
+    rewrite !pe_S. now apply pe_body_none.
+  Qed.
+End Transparent.
+
+Theorem never_matching_custom_parse : forall cmatch rules classes acts preds fuel fl bytes,
+  (forall o, cmatch o = None) ->
+  parse_custom cmatch rules classes acts preds fuel fl bytes = parse rules classes acts preds fuel fl bytes.
+Proof.
+  intros cmatch rules classes acts preds fuel fl bytes H. unfold parse, parse_custom. cbv zeta.
+  now rewrite (never_matching_custom_transparent _ _ cmatch rules classes acts preds H).
+Qed.
 
 (* the two ways of discharging `default_ok` *)
 Lemma default_ok_refs : forall gids rules, refs_ok_rules rules = true -> default_ok gids rules = true.
@@ -875,6 +995,10 @@ Check pe_preserves.
 Print Assumptions pe_preserves.
 Print Assumptions gating_sound.
 Print Assumptions gating_flag_stays.
+Print Assumptions gating_sound_custom.
+Print Assumptions gating_flag_stays_custom.
+Print Assumptions never_matching_custom_transparent.
+Print Assumptions never_matching_custom_parse.
 
 (* ---------- non-vacuity: a tiny grammar ------------------------------------------- *)
 Module Example.
@@ -917,6 +1041,17 @@ Module Example.
                 ex_gated (or_intror Hocc) Ha Hd Hfl fuel 7). reflexivity.
     - exact (gating_flag_stays ex_rules [] ex_acts ex_preds 4 true [7] ex_mlit ex_gids ex_U bytes fl
                 ex_gated (or_intror Hocc) Ha Hd Hfl fuel).
+  Qed.
+
+  Example ex_sound_custom : forall cmatch bytes fl fuel,
+    occurs ex_mlit bytes = false -> getf fl 4 = true ->
+    ~ In 7 (r_emitted (parse_custom cmatch ex_rules [] ex_acts ex_preds fuel fl bytes)).
+  Proof.
+    intros cmatch bytes fl fuel Hocc Hfl.
+    assert (Ha : Forall (fun c => c < 128) ex_mlit) by (repeat constructor).
+    assert (Hd : default_ok ex_gids ex_rules = true) by (vm_compute; reflexivity).
+    eapply (gating_sound_custom cmatch ex_rules [] ex_acts ex_preds 4 true [7] ex_mlit ex_gids ex_U bytes fl
+              ex_gated (or_intror Hocc) Ha Hd Hfl fuel 7). reflexivity.
   Qed.
 
   (* the hypotheses matter: with the flag at its non-blocking value, or with the literal
